@@ -7,6 +7,8 @@ use ckb_network::{async_trait, bytes::Bytes, CKBProtocolContext, CKBProtocolHand
 use ckb_types::{core::BlockNumber, packed, prelude::*};
 use golomb_coded_set::{GCSFilterReader, SipHasher24Builder, M, P};
 use log::{debug, error, info, log_enabled, trace, warn, Level};
+#[cfg(feature = "verif")]
+use crate::verif_hooks::rand_shim as rand;
 use rand::seq::SliceRandom as _;
 use std::io::Cursor;
 use std::sync::RwLock;
